@@ -1077,9 +1077,9 @@ func main() {
 	os.Chmod(tmp, 0o755) // a child that drops its privileges must be able to reach its files
 	defer os.RemoveAll(tmp)
 
-	nParse, nWrite, nHist, steps := 1500, 700, 250, 10
+	nParse, nWrite, nHist, steps, nOwn := 1500, 700, 250, 10, 120
 	if env.Thorough {
-		nParse, nWrite, nHist, steps = 30000, 6000, 4000, 25
+		nParse, nWrite, nHist, steps, nOwn = 30000, 6000, 4000, 25, 1500
 	}
 	h.add(check{line: "V " + encStr(envKey) + " " + encStr(envVal), want: "ok"})
 
@@ -1098,6 +1098,9 @@ func main() {
 	lap("parse stream + full-grammar rendering")
 	h.streamWrite(nWrite)
 	lap("write-back stream")
+	h.streamOwnWrite(nOwn)
+	h.streamAPI(nOwn)
+	lap("own-write stream (SetValues, reload, getters)")
 	h.historyWorker(nHist, steps)
 	lap("history stream (worker process)")
 	h.streamWriteFault()
